@@ -5,6 +5,7 @@
 pub mod coq;
 pub mod rng;
 pub mod fixtures;
+pub mod qx;
 pub mod hist;
 pub mod crashfs;
 pub mod walcodec;
